@@ -708,8 +708,16 @@ func (w *rsWorld) runHealth() {
 			jsonBytes, _ = json.Marshal(j)
 			want = "err"
 		case "truncated":
-			os.WriteFile(filepath.Join(logDir, "checkpoint"), pristineCk[:1+r.Intn(len(pristineCk)-1)], 0o644)
+			// the order of the signature lines (and the ML-DSA bytes) is random per
+			// signing: a cut that happens to fall on a line boundary after the
+			// log's own signature leaves a valid checkpoint with fewer cosignatures
+			cut := pristineCk[:1+r.Intn(len(pristineCk)-1)]
+			os.WriteFile(filepath.Join(logDir, "checkpoint"), cut, 0o644)
 			want = "err"
+			if _, err := ref.VerifyLogCheckpoint(cut, ld.Cfg.Name, &ld.Cfg.Key.PublicKey); err == nil {
+				want = "ok"
+				w.sim.Probe("truncated.still-valid")
+			}
 		case "missing-checkpoint":
 			os.Remove(filepath.Join(logDir, "checkpoint"))
 			want = "err"
